@@ -130,7 +130,11 @@ def handleScale (ins outs : List J) : Verdict :=
        | none => verdictOf ("nt qq nan") [("qq-nan", g == .nan, s!"go={g.str}")]
        | some y =>
          let e := unmapI second y
-         verdictOf ("nt qq " ++ scTag first ++ " > " ++ scTag second) [("qq-" ++ dir, inI g e, s!"x={ratStr x} go={g.str} model=[{ratStr e.lo},{ratStr e.hi}]")])
+         -- the intermediate position itself beyond the float64 range (x at 1e300 against a domain 1e-11 wide): the
+         -- composition passes through an infinity, and a non-finite result is what it delivers
+         let midOver := y.lo ≥ maxFloat || y.hi ≤ -maxFloat
+         let nonFin := match g with | .fin _ => false | _ => true
+         verdictOf ("nt qq " ++ scTag first ++ " > " ++ scTag second) [("qq-" ++ dir, inI g e || (midOver && nonFin), s!"x={ratStr x} go={g.str} model=[{ratStr e.lo},{ratStr e.hi}]")])
     | _, _, _, _ => .badOp "qq: parse"
   | _, _ => .badOp "scale: arity"
 
